@@ -6,6 +6,7 @@ import random
 
 CLASH = ["zeta", "S", "E", "I", "N", "Q", "lambda_", "Symbol", "Abs", "sign", "re", "O", "pi_", "exp_", "E1", "oo", "Float", "Mod", "floor_"]
 PLAIN = ["g", "k", "v0", "rate", "amp", "c", "w", "u", "q"]
+UNITS = ["", " [mV]", " [1/ms]", " [uA/cm^2]", " [m^2 (0.01)]", " [mol/s (1e-07)]", " [L/F (1e-06)]", " [1]", " [g*m/s^2]", " [mmol/L]", " [mS/uF]"]
 FUNS1 = ["exp", "log", "log10", "sqrt", "abs", "floor", "ceil", "sin", "cos", "tan", "atan", "asin", "acos"]
 
 
@@ -58,6 +59,13 @@ class Gen:
         a = r.choice(names) if names else "0.5"
         rel = r.choice(["<", ">", "<=", ">=", "==", "!="])
         base = f"({a} {rel} {self.lit()})"
+        if r.random() < 0.25:
+            # a flat chain of 3-5 operands (sympy flattens it into one n-ary And / Or)
+            op = r.choice(["and", "or"])
+            parts = [base]
+            for _ in range(r.choice([2, 2, 3, 4])):
+                parts.append(f"({r.choice(names) if names else '0.5'} {r.choice(['<', '>', '<=', '>='])} {self.lit()})")
+            return "(" + f" {op} ".join(parts) + ")"
         k = r.random()
         if d > 0 and k < 0.3:
             return f"({base} {r.choice(['and', 'or'])} {self.cond(names, d - 1)})"
@@ -97,7 +105,7 @@ def gen_mmt(rng: random.Random):
         lines.append(f"[{c}]")
         for q, v in consts.items():
             if q.startswith(c + "."):
-                unit = rng.choice(["", " [mV]", " [1/ms]", " [uA/cm^2]"])
+                unit = rng.choice(UNITS)
                 lines.append(f"{q.split('.')[1]} = {v}{unit}")
                 if unit:
                     lines.append(f"    in{unit}")
@@ -111,6 +119,8 @@ def gen_mmt(rng: random.Random):
             nm = f"w{k}"
             e = g.expr(visible(c), 2)
             lines.append(f"{nm} = {e}")
+            if rng.random() < 0.4:
+                lines.append(f"    in{rng.choice(UNITS[1:])}")
             inter[f"{c}.{nm}"] = e
         for q in [s for s in states if s.startswith(c + ".")]:
             sn = q.split(".")[1]
@@ -126,5 +136,9 @@ def gen_mmt(rng: random.Random):
                 lines.append(f"    {l2} = {g.expr(vis + [l1], 2)}")
             else:
                 lines.append(f"dot({sn}) = {g.expr(vis, 3)}")
+            if rng.random() < 0.4:
+                # the unit of the state variable; it must come before the nested variables
+                k_dot = max(j for j, ln in enumerate(lines) if ln.startswith(f"dot({sn})"))
+                lines.insert(k_dot + 1, f"    in{rng.choice(UNITS[1:])}")
         lines.append("")
     return "\n".join(lines) + "\n"
